@@ -53,6 +53,8 @@ def named_configs():
       'wo8': (MM, O(None, T(8, False, ch), P.FLOAT, True)),
       'wo8s': (MM, O(None, T(8, True, te), P.FLOAT, True)),
       'wo4': (MM, O(None, T(4, False, ch), P.FLOAT, True)),
+      'wo8t': (MM, O(None, T(8, False, te), P.FLOAT, True)),     # asymmetric, per tensor (directed streams only)
+      'wo4t': (MM, O(None, T(4, False, te), P.FLOAT, True)),
       'fp16': (FC_ALG, O(None, T(16, dtype=qtyping.TensorDataType.FLOAT),
                          P.FLOAT, True)),
       'nq': (NQ, None),
